@@ -17,6 +17,19 @@ import time
 import traceback
 
 
+_EMIT_FD = None
+
+
+def die(value):
+    """End the current simulated process NOW (no unwinding, no flushing of user-space buffers):
+    report `value` as its result and _exit.  Only valid inside run_in_fork's child."""
+    data = json.dumps({'status': 'returned', 'value': value}, default=_json_default).encode()
+    off = 0
+    while off < len(data):
+        off += os.write(_EMIT_FD, data[off:off + 65536])
+    os._exit(0)
+
+
 def run_in_fork(fn, args=(), timeout=60.0, quiet=True, stderr_path=None):
     """Run fn(*args) in a forked child.  Returns dict:
     {'status': 'returned', 'value': <json value>} | {'status': 'died', 'signal': n} |
@@ -30,6 +43,8 @@ def run_in_fork(fn, args=(), timeout=60.0, quiet=True, stderr_path=None):
         code = 0
         try:
             os.close(r)
+            global _EMIT_FD
+            _EMIT_FD = w
             dn = os.open(os.devnull, os.O_RDWR)
             os.dup2(dn, 0)
             if quiet:
